@@ -260,6 +260,9 @@ fn present_ring(r: &[P], pr: Present, rng: &mut Rng) -> IRing {
     }
     if pr.close || rng.chance(1, 2) {
         v.push(first);
+        if pr.dups && rng.chance(1, 3) {
+            v.push(first); // the closing vertex itself repeated: [A, B, .., A, A]
+        }
     }
     v
 }
